@@ -9,7 +9,8 @@ RULE = ("Engine K: a continuous conveyor (length, item length, speed from a grid
         "are not a multiple of the item length; accumulating 0/1) or a slotted conveyor (capacity 1-6, slot delay, "
         "accumulating 0/1) between a scripted producer (regular / bursts of zeros / irregular real waits between admission "
         "requests; puts at the grant instant or, in a quarter of the cases, after a loading time) and a scripted consumer (always waiting = free flow, late = one long stall, "
-        "alternating, irregular; gets at the grant instant). Validity predicates on put instants p_i, offer instants r_i "
+        "alternating, irregular; gets at the grant instant, or - a quarter of the cases - withdraws some granted retrievals within the instant "
+        "of the grant like a fan-in node that picked another edge, and asks again later). Validity predicates on put instants p_i, offer instants r_i "
         "(first instant in ready_items) and get instants g_i: items are got in entry order; occupancy <= capacity after "
         "every kernel event; p_(i+1) - p_i >= item_length/speed (slot delay), and on a non-accumulating continuous belt the same after "
         "subtracting the time the belt stood still in between (an item waited at the exit); r_i - p_i >= length/speed (capacity*delay); "
@@ -32,7 +33,7 @@ F_PROFILE = {"conveyors": True, "conveyor_to_sink": True, "conveyor_weight": 3, 
 def strategy(tier):
     from hypothesis import strategies as st
     from .. import gen_factory
-    k = gen_conv.cases(holds=True)
+    k = gen_conv.cases(holds=True, ccancels=True)
     return st.one_of(k, k, k, k, k, gen_factory.factories(F_PROFILE))
 
 
